@@ -33,6 +33,10 @@ ST_TB = [
     "Go maps as association lists (last insertion wins); sort.Slice as List.mergeSort (claimed only for distinct keys); strconv.Atoi/ParseInt; int overflow inside parseGtfsTimeToDuration is not modelled",
 ]
 
+INV_TB = [
+    "the inventory extractor (goext/gen_inventory.go, goext/guards.go): it lists every panic-capable site, condition-less loop, range-over-map loop and shared write of the library from the typed syntax trees; its guard recogniser (nil check in an enclosing condition or early exit, range index, sort comparator, checked length, constant index into an array or a non-nil regex match, comma-ok assertion) and its map-range classifier (independent / collect-then-sort) are syntactic and trusted: they assume the guarded expression is not changed through an alias or a callee between guard and use; sites they do not recognise are discharged by hand in the Lean tables, filed by package, kind and operand type",
+]
+
 PROPS = {
     "C01": {
         "module": "GtfsVerif.Props.C01",
@@ -49,7 +53,7 @@ PROPS = {
     },
     "C05": {
         "module": "GtfsVerif.Props.C05",
-        "trusted_base": ST_TB + RT_TB + JOURNAL_TB,
+        "trusted_base": ST_TB + RT_TB + JOURNAL_TB + INV_TB,
         "runs": [{"cmd": "run", "prop": "C05"}, {"cmd": "run", "prop": "CSV"}],
         "partial": ["panics and hangs inside archive/zip, encoding/csv, protobuf-go, text/template, regexp cannot be exhibited by a theorem: they are exercised by the malformed-input streams (recover + 20 s watchdog per case)",
                     "ParseRealtime(_, nil) (a nil options pointer) panics; a nil pointer is not a configuration of the bundled extensions and is outside the quantifier"],
@@ -57,7 +61,7 @@ PROPS = {
     },
     "C06": {
         "module": "GtfsVerif.Props.C06",
-        "trusted_base": ST_TB + RT_TB,
+        "trusted_base": ST_TB + RT_TB + INV_TB,
         "partial": ["determinism across processes and repeated calls is a runtime fact observed by the oracle (6 repetitions, interleaved other inputs, a second process); the Lean part is that every range-over-map site of the regenerated inventory is one whose order cannot reach the output, and that no state is retained"],
         "assumptions": [],
     },
@@ -179,12 +183,12 @@ MANIFEST_TEXT = {
         "technique": "Lean 4 proof (index specs, forest invariant by induction over the linking pass) + pointer-identity correspondence",
     },
     "C05": {
-        "text": "Lean: the models of all entry points are total functions (termination checked by Lean); the regenerated inventory of panic-capable sites (index, slice, dereference, type assertion, panic) and condition-less loops is covered site by site by a discharged table, Root terminates by the forest theorem. Runtime: malformed-input streams (semantic garbage in valid CSV, random CSV bytes, random archive bytes, mutated protobuf under all 25 extension configurations, journals and exports, every accessor) under recover and a watchdog; the model predicts the outcome class of static cases, and the CSV reader model is validated on random bytes.",
+        "text": "Lean: the models of all entry points are total functions (termination checked by Lean); every panic-capable site of the regenerated inventory (index, slice, dereference, type assertion, panic) carries a guard the extractor recognised or is one of 17 hand-discharged kinds (filed by package, kind and operand type, so robust against moving and renaming), condition-less loops are pinned, Root terminates by the forest theorem. Runtime: malformed-input streams (semantic garbage in valid CSV, random CSV bytes, random archive bytes, mutated protobuf under all 25 extension configurations, journals and exports, every accessor) under recover and a watchdog; the model predicts the outcome class of static cases, and the CSV reader model is validated on random bytes.",
         "note": "Partial by nature: library internals are exercised, not proved.",
         "technique": "Lean 4 totality + inventory-discharge theorem over regenerated panic sites + malformed-input exploration",
     },
     "C06": {
-        "text": "Lean: every range-over-map site of the regenerated inventory is covered by a sort on distinct keys or by independent iterations; no package-level state, options copied, stateful extension instantiated per message. Runtime oracle: same bytes parsed 6 times, again after unrelated inputs with one options/extension object, and in a second process; content and order compared, input buffer unchanged; cases are built so that any map-ordered output has 8 entries.",
+        "text": "Lean: every range-over-map site of the regenerated inventory is classified by the extractor as independent iterations or collect-then-sort (none unclassified), the sort keys being distinct by C07/C11 theorems; no package-level state, options copied, stateful extension instantiated per message. Runtime oracle: same bytes parsed 6 times, again after unrelated inputs with one options/extension object, and in a second process; content and order compared, input buffer unchanged; cases are built so that any map-ordered output has 8 entries.",
         "note": "Determinism across runs is observed by repetition (miss probability 8^-6 per case for an 8-entry map), not proved.",
         "technique": "Lean 4 inventory theorem over regenerated map-range sites + repeated/cross-process parse oracle",
     },
